@@ -3,7 +3,8 @@ C13 — External sort never hides I/O failures and leaves no temporary files beh
 
 Theorems about `Biogo.MorassConc.sys` with its fault oracle: the n-th execution of one kind of
 file-system / gob operation (temporary file creation, Encode, Sync, Seek, Decode in Finalise,
-Decode in Pull, Close, Remove) fails; `Reach` quantifies over every interleaving; `conc`
+Decode in Pull, Close, Remove) fails — since the third wave a list of such faults, armed one
+after the other (`flt : Fault` below is any such list; `[]` = no fault); `Reach` quantifies over every interleaving; `conc`
 selects the sequential or the concurrent mode.
 -/
 import Biogo.Model.MorassConc
